@@ -1,6 +1,31 @@
 import Gaftools.Props.TieA5
 import Gaftools.Props.TieA
+import Gaftools.Props.TieA17
 #print axioms Gaftools.TieA.eDir_gen_eq_model
 #print axioms Gaftools.TieA.pathCase_gen_eq_model
 #print axioms Gaftools.TieA.addEdge_gen
 #print axioms Gaftools.TieA.removeEdge_gen
+#print axioms Gaftools.TieA17.pyGet_nat
+#print axioms Gaftools.TieA17.pyGet_nat_succ
+#print axioms Gaftools.TieA17.pyGet_zero
+#print axioms Gaftools.TieA17.pyGet_last
+#print axioms Gaftools.TieA17.pyRange_step
+#print axioms Gaftools.TieA17.has_eq_isSome
+#print axioms Gaftools.TieA17.translate_comp
+#print axioms Gaftools.TieA17.revComp_gen
+#print axioms Gaftools.TieA17.oriChar_of_isOri
+#print axioms Gaftools.TieA17.findall_aux
+#print axioms Gaftools.TieA17.findall_gen
+#print axioms Gaftools.TieA17.scan_spec
+#print axioms Gaftools.TieA17.walk_spec
+#print axioms Gaftools.TieA17.pathExists_gen
+#print axioms Gaftools.TieA17.spell_spec
+#print axioms Gaftools.TieA17.contains_ori1
+#print axioms Gaftools.TieA17.contains_ori2
+#print axioms Gaftools.TieA17.tokOf_fst_gt
+#print axioms Gaftools.TieA17.tokOf_fst_lt
+#print axioms Gaftools.TieA17.extractPath_gen
+#print axioms Gaftools.TieA17.read_spec
+#print axioms Gaftools.TieA17.print_spec
+#print axioms Gaftools.TieA17.zip_map_fst_snd
+#print axioms Gaftools.TieA17.run_gen
